@@ -48,13 +48,15 @@ ASSUMPTIONS = [
     "frame with diagonal tensors (heterogeneous for signs and MPFA agreement, constant for "
     "linear exactness)",
     "MPFA agreement is asserted in 2-D and 3-D only (in 1-D Mpfa delegates to Tpfa)",
+    "tolerance 1e-9 relative to the largest transmissibility resp. ||K|| |a| max(face area); "
+    "observed on the unchanged tree: median <= 1e-15, max 9e-13 over 4000 cases",
 ]
 LEVEL_TEXT = ("Exploration: on every generated grid / tensor field / boundary mix the TPFA "
               "operator is symmetric, single-valued and annihilates constants; on the "
               "K-orthogonal subset it is an M-matrix, equals MPFA and is exact for linear "
-              "pressures incl. the boundary trace (1e-10 relative).")
+              "pressures incl. the boundary trace (1e-9 relative).")
 TECHNIQUE = "invariant monitor on Tpfa matrices + closed-form linear fields + MPFA cross-check"
-TOL = 1e-10
+TOL = 1e-9
 
 
 def _case(recipe, kmode, K, kseed, a, c, bc_mode, bc_seed, p_dir, pseed):
